@@ -1396,8 +1396,18 @@ func (in *Interp) convert(v Value, from, to types.Type) Value {
 
 func (a *Act) typeAssert(x *ssa.TypeAssert) Value {
 	iv := a.get(x.X).(IfaceV)
-	if _, toIface := x.AssertedType.Underlying().(*types.Interface); toIface {
-		ok := Not(iv.nilG)
+	if it, toIface := x.AssertedType.Underlying().(*types.Interface); toIface {
+		// the dynamic type must implement the asserted interface (opaque stand-ins do by construction)
+		ok := False
+		for _, al := range iv.alts {
+			if _, opaque := al.val.(OpaqueV); opaque || al.typ == nil || types.Implements(al.typ, it) {
+				ok = Or(ok, al.g)
+			}
+		}
+		if len(iv.alts) == 0 {
+			ok = Not(iv.nilG)
+		}
+		ok = And(ok, Not(iv.nilG))
 		if x.CommaOk {
 			return TupleV{iteVal(ok, iv, nilIface()), ok}
 		}
